@@ -38,6 +38,7 @@ RULES = {
     "R20.8": "the four problem constructors and the solver accept `config` or keyword arguments the same way: self.config = config if given else self.Config(**kwargs)",
     "R20.9": "verbosity: every validator-accepted level 0..4 is a key of the level table, the table is {0:ERROR,1:WARNING,2:INFO,3:DEBUG,4:TRACE}, the string table of set_verbosity is its inverse, anything else raises",
     "R20.10": "defaults: every field default lies in the validator-accepted domain, and the five solver configurations agree on the defaults of their shared fields (gamma of relative value iteration excepted); jax_double_precision defaults to True",
+    "R20.12": "a configuration value for which 0 / 0.0 is a valid setting (gamma, checkpoint_frequency, max_checkpoints, fire / substitution probability, random_seed) is never subjected to truthiness (`x or default`, `if x:`, `x and ...`): the valid zero would silently become the fallback (expected count zero; `verbose`, where 0 means quiet, is exempt)",
     "R20.11": "solver code never takes a dtype from a runtime value (`x.astype(v.dtype)`, `dtype=v.dtype`) nor casts to a narrower float: with double precision requested, results must not inherit the width of whatever estimates or tables came in (expected count zero)",
     "R20.6": "the 64-bit switch dominates every JAX array creation and the problem instantiation in Solver._setup_config; problem constructors do not create floating tables before a solver can enable it",
 }
@@ -982,6 +983,53 @@ def _runtime_dtypes(ctx, col):
         col.add("R20.11", m.name, m.relpath, 1, True, "module scanned: no runtime-derived or narrow dtype", text="module scanned")
 
 
+# =============================================================================== R20.12
+TRUTHINESS_EXEMPT = {"verbose": "0 means no progress output: `if self.verbose:` is the documented meaning"}
+
+
+def _truthiness(ctx, col):
+    fields = {"random_seed"}
+    for _cfgname, dom in DOMAINS.items():
+        for f, cs in dom.items():
+            for c in cs:
+                if c[0] == "accept" and any(iv.contains(0.0) for iv in c[1]):
+                    fields.add(f)
+    fields -= set(TRUTHINESS_EXEMPT)
+
+    def field_of(e):
+        if isinstance(e, ast.Attribute) and e.attr in fields:
+            return e.attr
+        if isinstance(e, ast.Name) and e.id in fields:
+            return e.id
+        if isinstance(e, ast.Call) and isinstance(e.func, ast.Name) and e.func.id == "getattr" and len(e.args) >= 2 \
+                and isinstance(e.args[1], ast.Constant) and e.args[1].value in fields:
+            return e.args[1].value
+        return None
+
+    nmods = 0
+    for m in sorted(ctx.repo.modules.values(), key=lambda x: x.name):
+        nmods += 1
+        for n in ast.walk(m.tree):
+            hits = []
+            if isinstance(n, ast.BoolOp):
+                for v in (n.values[:-1] if isinstance(n.op, ast.Or) else n.values):
+                    if field_of(v):
+                        hits.append(v)
+            if isinstance(n, (ast.If, ast.IfExp, ast.While)):
+                t = n.test
+                if isinstance(t, ast.UnaryOp) and isinstance(t.op, ast.Not):
+                    t = t.operand
+                if field_of(t):
+                    hits.append(t)
+            for h in hits:
+                f = field_of(h)
+                col.add("R20.12", m.name, m.relpath, n.lineno, False,
+                        f"`{norm_text(n)[:90]}` tests the truth value of `{ast.unparse(h)}`: {f} = 0 is a valid setting, but it is falsy, so it "
+                        "silently takes the fallback / the other branch", text=f"truthiness of {f}")
+    col.add("R20.12", "package", "src/mdpax", 0, True, f"{nmods} modules scanned: no truthiness test of a falsy-valid configuration value "
+            f"({', '.join(sorted(fields))})", text="truthiness scanned")
+
+
 # =============================================================================== R20.7 / R20.8
 def _config_fields(ctx, col):
     n = 0
@@ -1078,6 +1126,7 @@ def run(ctx: Context, col) -> None:
     part(_verbosity, ctx, col)
     part(_defaults, ctx, col)
     part(_runtime_dtypes, ctx, col)
+    part(_truthiness, ctx, col)
     part(_x64, ctx, col)
     try:
         _format_precision(ctx, col)
@@ -1092,6 +1141,7 @@ def run(ctx: Context, col) -> None:
     col.floor("R20.9", 9)
     col.floor("R20.10", 40)
     col.floor("R20.11", 6)
+    col.floor("R20.12", 1)
     col.floor("R20.7", 9)
     col.floor("R20.8", 5)
     col.floor("R20.1", 15)
